@@ -1,11 +1,13 @@
 #!/bin/sh
-# tools/thorough_all.sh: every registered thorough command once, in a scratch copy of /verif (evidence of /verif untouched)
-S=/tmp/thor; rm -rf $S; mkdir -p $S
+# tools/thorough_all.sh: every registered thorough command once, in a scratch copy of /verif (evidence of /verif untouched);
+# one line per property with the real exit status of ./check
+S=/tmp/thor.$$; rm -rf $S; mkdir -p $S
 rsync -a --exclude .git --exclude .venv --exclude .tmp --exclude replays /verif/ $S/verif/
 ln -s /verif/.venv $S/verif/.venv; mkdir -p $S/verif/.tmp $S/verif/replays
 cd $S/verif
 for p in C01 C02 C03 C04 C05 C06 C07 C08 C09 C10 C11 C12 C13 C14 C15 C16 C17 C18 C19 C20; do
-  /usr/bin/time -f "%e s" ./check $p --tier thorough 2>&1 | grep -E "VIOLATION|UNDECIDED|CRASH|UNSOUND|tier=| s$" | cut -c1-220
-  echo "  exit=$? for $p"
+  ./check $p --tier thorough > $S/out.$p 2>&1; rc=$?
+  grep -a -E "^VIOLATION|^UNDECIDED|CRASH|UNSOUND|tier=" $S/out.$p | cut -c1-220
+  echo "  exit=$rc for $p"
 done
 rm -rf $S
